@@ -190,46 +190,65 @@ func labelText(ci ssa.CallInstruction) string {
 // with the row's events.
 func labelRule(c *Check, d *Dispatch, row Row, inc *ssa.Function, rx map[string]*RegexVar) {
 	p := c.P
-	var incs []ssa.CallInstruction
+	type incSite struct {
+		ci ssa.CallInstruction
+		r  *Resolver
+	}
+	var incs []incSite
 	// in the case body
 	for _, b := range row.Bodies {
 		for _, in := range b.Instrs {
 			if ci, ok := in.(ssa.CallInstruction); ok && staticCallee(ci.Common()) == inc {
-				incs = append(incs, ci)
+				incs = append(incs, incSite{ci, NewResolver(p)})
 			}
 		}
 	}
-	// in the entry function and its static callees
-	seen := map[*ssa.Function]bool{}
-	var walk func(fn *ssa.Function)
-	walk = func(fn *ssa.Function) {
-		if seen[fn] || fn.Blocks == nil || !InRepo(fn) {
+	// in the entry function and its static callees (per call chain, the
+	// callee's parameters bound to the caller's arguments)
+	var walk func(fn *ssa.Function, r *Resolver, depth int)
+	walk = func(fn *ssa.Function, r *Resolver, depth int) {
+		if depth > 4 || fn.Blocks == nil || !InRepo(fn) {
 			return
 		}
-		seen[fn] = true
 		for _, ci := range callsIn(fn) {
 			sc := staticCallee(ci.Common())
 			if sc == inc {
-				incs = append(incs, ci)
-			} else if sc != nil {
-				walk(sc)
+				incs = append(incs, incSite{ci, r})
+			} else if sc != nil && sc != fn {
+				walk(sc, r.Bind(sc, ci), depth+1)
 			}
 		}
 	}
-	walk(row.Fn)
+	walk(row.Fn, NewResolver(p), 0)
 	accepted := row.Accepted(rx)
 	wantOutcome := "failure"
 	if accepted {
 		wantOutcome = "success"
 	}
-	for _, ci := range incs {
+	for _, is := range incs {
+		ci := is.ci
 		a := ci.Common().Args
 		if len(a) < 3 {
 			continue
 		}
-		m, okm := constStr(a[1])
-		o, oko := constStr(a[2])
-		name := fmt.Sprintf("row %s: increment %s in %s", row.Name(), labelText(ci), ci.Parent().Name())
+		constOf := func(v ssa.Value) (string, bool) {
+			if s, ok := constStr(v); ok {
+				return s, true
+			}
+			o := is.r.Of(v)
+			// a named string type converted from a constant
+			for o.K == "unop" && strings.HasPrefix(o.Name, "conv:") && len(o.Sub) == 1 {
+				o = o.Sub[0]
+			}
+			return o.ConstString()
+		}
+		m, okm := constOf(a[1])
+		o, oko := constOf(a[2])
+		where := ci.Parent().Name()
+		if s := is.r.Site[ci.Parent()]; s != nil {
+			where += " called at " + p.InstrPos(s)
+		}
+		name := fmt.Sprintf("row %s: increment (%s,%s) in %s", row.Name(), m, o, where)
 		if !okm || !oko {
 			c.Unk("label-agreement", name, p.InstrPos(ci), "labels are not constants")
 			continue
@@ -261,19 +280,22 @@ func incFaithful(c *Check, inc *ssa.Function) {
 	p := c.P
 	c.Fn(funcDisplayName(inc))
 	var wlv *ssa.Call
+	form := ""
 	calls := 0
 	other := ""
 	allInstrs(inc, func(in ssa.Instruction) {
 		switch x := in.(type) {
 		case *ssa.Call:
-			calls++
-			if sc := staticCallee(x.Common()); sc != nil && sc.Name() == "WithLabelValues" {
-				wlv = x
+			if sc := staticCallee(x.Common()); sc != nil && FuncPkgPath(sc) == "github.com/prometheus/client_golang/prometheus" && (sc.Name() == "WithLabelValues" || sc.Name() == "With") {
+				calls++
+				wlv, form = x, sc.Name()
 			} else if x.Common().IsInvoke() && x.Common().Method.Name() == "Inc" {
+				calls++
 			} else {
+				calls++
 				other = "calls " + calleeName(x.Common())
 			}
-		case *ssa.MapUpdate, *ssa.Lookup, *ssa.Go, *ssa.Defer, *ssa.If:
+		case *ssa.Lookup, *ssa.Go, *ssa.Defer, *ssa.If:
 			other = "contains " + in.String() + " (state or branching)"
 		case *ssa.Store:
 			if _, ok := x.Addr.(*ssa.IndexAddr); !ok {
@@ -283,62 +305,185 @@ func incFaithful(c *Check, inc *ssa.Function) {
 	})
 	name := "IncLogins body"
 	if wlv == nil {
-		c.Bad("inclogins-faithful", name, p.Pos(inc.Pos()), "IncLogins does not resolve the counter child with WithLabelValues(method, outcome)")
+		c.Bad("inclogins-faithful", name, p.Pos(inc.Pos()), "IncLogins does not resolve the counter child with WithLabelValues(method, outcome) or With(Labels{method, outcome})")
 		return
 	}
 	if other != "" || calls != 2 {
 		c.Bad("inclogins-faithful", name, p.Pos(inc.Pos()), "IncLogins is more than remoteLogins.WithLabelValues(method,outcome).Inc(): "+other+" — cached or conditional children can count an event under another label")
 		return
 	}
-	// varargs elements: [0] <- conv(param loginType), [1] <- conv(param outcome)
 	r := NewResolver(p)
 	okArgs := true
 	why := ""
-	sl, ok := wlv.Call.Args[1].(*ssa.Slice)
-	if !ok {
+	unconv := func(o *Org) *Org {
+		for o.K == "unop" && len(o.Sub) == 1 {
+			o = o.Sub[0]
+		}
+		return o
+	}
+	// receiver: the counter-vector field of the provider, and the label
+	// names it was declared with
+	ro := r.Of(wlv.Call.Args[0])
+	var names []string
+	if ro.K != "field" {
 		okArgs = false
-		why = "label values are not a literal argument list"
+		why = "counter vector is not a field of the provider"
 	} else {
-		arr := sl.X
-		got := map[int64]string{}
-		if rr := arr.Referrers(); rr != nil {
-			for _, u := range *rr {
-				ia, ok := u.(*ssa.IndexAddr)
-				if !ok || !isIntConst(ia.Index) {
-					continue
-				}
-				if ir := ia.Referrers(); ir != nil {
-					for _, su := range *ir {
-						if st, ok := su.(*ssa.Store); ok {
-							o := r.Of(st.Val)
-							for o.K == "unop" && len(o.Sub) == 1 {
-								o = o.Sub[0]
+		names, why = vecLabelNames(p, ro.Name, inc)
+		if names == nil {
+			okArgs = false
+		}
+	}
+	// label name -> origin of its value
+	assign := map[string]string{}
+	if okArgs {
+		switch form {
+		case "WithLabelValues":
+			sl, ok := wlv.Call.Args[1].(*ssa.Slice)
+			if !ok {
+				okArgs = false
+				why = "label values are not a literal argument list"
+				break
+			}
+			got := map[int64]string{}
+			if rr := sl.X.Referrers(); rr != nil {
+				for _, u := range *rr {
+					ia, ok := u.(*ssa.IndexAddr)
+					if !ok || !isIntConst(ia.Index) {
+						continue
+					}
+					if ir := ia.Referrers(); ir != nil {
+						for _, su := range *ir {
+							if st, ok := su.(*ssa.Store); ok {
+								got[ia.Index.(*ssa.Const).Int64()] = unconv(r.Of(st.Val)).String()
 							}
-							got[ia.Index.(*ssa.Const).Int64()] = o.String()
 						}
 					}
 				}
 			}
+			if len(got) != len(names) {
+				okArgs = false
+				why = fmt.Sprintf("%d label values for the %d declared labels %v", len(got), len(names), names)
+				break
+			}
+			for i, n := range names {
+				assign[n] = got[int64(i)]
+			}
+		case "With":
+			mk, ok := strip(wlv.Call.Args[1]).(*ssa.MakeMap)
+			if !ok {
+				okArgs = false
+				why = "labels are not a map literal"
+				break
+			}
+			if rr := mk.Referrers(); rr != nil {
+				for _, u := range *rr {
+					if mu, ok := u.(*ssa.MapUpdate); ok {
+						k, isK := constStr(mu.Key)
+						if !isK {
+							okArgs = false
+							why = "label name is not a constant"
+							continue
+						}
+						assign[k] = unconv(r.Of(mu.Value)).String()
+					}
+				}
+			}
+			if len(assign) != len(names) {
+				okArgs = false
+				why = fmt.Sprintf("labels %v given for the declared labels %v", assign, names)
+			}
 		}
-		if len(inc.Params) < 3 || got[0] != "P("+inc.Params[1].Name()+")" || got[1] != "P("+inc.Params[2].Name()+")" || len(got) != 2 {
+	}
+	if okArgs {
+		if len(inc.Params) < 3 || len(assign) != 2 || assign["method"] != "P("+inc.Params[1].Name()+")" || assign["outcome"] != "P("+inc.Params[2].Name()+")" {
 			okArgs = false
-			why = fmt.Sprintf("label values are %v, expected (loginType, outcome) in this order", got)
+			why = fmt.Sprintf("labels are %v (declared %v), expected method <- the login type argument and outcome <- the outcome argument", assign, names)
 		}
 	}
-	// receiver: the remoteLogins field
-	ro := r.Of(wlv.Call.Args[0])
-	if ro.K != "field" {
-		okArgs = false
-		why = "counter vector is not a field of the provider"
-	}
-	// the Inc receiver is the WithLabelValues result
+	// the Inc receiver is the child just resolved
 	incOK := false
 	allInstrs(inc, func(in ssa.Instruction) {
 		if x, ok := in.(*ssa.Call); ok && x.Common().IsInvoke() && x.Common().Method.Name() == "Inc" && x.Common().Value == ssa.Value(wlv) {
 			incOK = true
 		}
 	})
-	c.Cond(okArgs && incOK, "inclogins-faithful", name, p.Pos(inc.Pos()), "IncLogins(t,o) = "+ro.String()+".WithLabelValues(t,o).Inc()", "IncLogins does not increment the child labelled with its arguments: "+why)
-	// label declaration order of the vector: method, outcome
-	_ = token.ADD
+	c.Cond(okArgs && incOK, "inclogins-faithful", name, p.Pos(inc.Pos()), "IncLogins(t,o) increments the child of "+ro.String()+" labelled method=t, outcome=o (declared labels "+strings.Join(names, ",")+")", "IncLogins does not increment the child labelled with its arguments: "+why)
+}
+
+// vecLabelNames: the label names the counter vector stored in the named
+// field of the provider was declared with (second argument of
+// prometheus.NewCounterVec, a literal list of constants), from every store
+// to that field in the provider's package.
+func vecLabelNames(p *Prog, field string, near *ssa.Function) ([]string, string) {
+	var names []string
+	nst := 0
+	bad := ""
+	pk := FuncPkgPath(near)
+	for _, fn := range p.AllRepoFuncs() {
+		if FuncPkgPath(fn) != pk {
+			continue
+		}
+		allInstrs(fn, func(in ssa.Instruction) {
+			st, ok := in.(*ssa.Store)
+			if !ok {
+				return
+			}
+			fa, ok := st.Addr.(*ssa.FieldAddr)
+			if !ok || fieldName(fa.X.Type(), fa.Field) != field {
+				return
+			}
+			nst++
+			cl, ok := strip(st.Val).(*ssa.Call)
+			if !ok {
+				bad = "the vector stored at " + p.InstrPos(in) + " is not built by NewCounterVec"
+				return
+			}
+			sc := staticCallee(cl.Common())
+			if sc == nil || sc.Name() != "NewCounterVec" || len(cl.Call.Args) != 2 {
+				bad = "the vector stored at " + p.InstrPos(in) + " is not built by NewCounterVec"
+				return
+			}
+			sl, ok := cl.Call.Args[1].(*ssa.Slice)
+			if !ok {
+				bad = "label names are not a literal list"
+				return
+			}
+			got := map[int64]string{}
+			if rr := sl.X.Referrers(); rr != nil {
+				for _, u := range *rr {
+					ia, ok := u.(*ssa.IndexAddr)
+					if !ok || !isIntConst(ia.Index) {
+						continue
+					}
+					if ir := ia.Referrers(); ir != nil {
+						for _, su := range *ir {
+							if s2, ok := su.(*ssa.Store); ok {
+								if k, isK := constStr(s2.Val); isK {
+									got[ia.Index.(*ssa.Const).Int64()] = k
+								} else {
+									bad = "a label name is not a constant"
+								}
+							}
+						}
+					}
+				}
+			}
+			var ns []string
+			for i := 0; i < len(got); i++ {
+				ns = append(ns, got[int64(i)])
+			}
+			if names != nil && strings.Join(names, ",") != strings.Join(ns, ",") {
+				bad = "the vector is declared with different label lists"
+			}
+			names = ns
+		})
+	}
+	if nst == 0 {
+		return nil, "no store to the counter-vector field " + field + " found"
+	}
+	if bad != "" {
+		return nil, bad
+	}
+	return names, ""
 }
